@@ -639,7 +639,36 @@ def r17f(F):
 			out.append(Result('17.f', True, 'ok:' + fld, 'NetworkGraph.%s is write-locked only in %s' % (fld, sorted(x.rsplit('::', 1)[-1] for x in takers)), n))
 	return out
 
+def r17g(F):
+	"""when a channel leaves the graph (removed, failed, or replaced after a reorg) its SCID is unlinked from the nodes of the channel that
+	is LEAVING: the ChannelInfo handed to the unlinking routine is the entry taken from the channel map, never one supplied by the caller"""
+	out = []
+	NGI = 'lightning::routing::gossip::NetworkGraph::'
+	F.calls
+	n = 0
+	MAP_READS = ('::get', '::remove', '::remove_entry', '::remove_fetch_bulk', '::get_mut', '::insert')
+	for callee in ('remove_channel_in_nodes', 'remove_channel_in_nodes_callback'):
+		for cn in sorted({r[0] for r in F.callers_of.get(F.fn(NGI + callee), [])}):
+			fu = F.func(cn)
+			ex = Expr(fu)
+			if cn == F.fn(NGI + 'remove_channel_in_nodes'):
+				continue   # the thin wrapper forwards its own parameter
+			for b in sites_call(fu, [NGI + callee]):
+				n += 1
+				e = ex.of_operand(fu.blocks[b]['t'][2]['args'][2])
+				calls = expr_leaves(e)['calls']
+				from_map = any(c.endswith(MAP_READS) for c in calls)
+				# a parameter of ChannelInfo type supplied by the caller
+				param = [l for l in expr_local_ids(e) if 1 <= l <= fu.argc and 'ChannelInfo' in (fu.locals[l].get('ty') or '')]
+				ok = from_map and not param
+				short = cn.rsplit('::', 1)[-1]
+				out.append(Result('17.g', ok, ('ok:' if ok else 'wrong-channel:') + 'unlink-uses-leaving-entry@' + short, '%s: the channel unlinked from its nodes is the entry read from the channel map (%s)%s' % (short, expr_str(e)[:60], '' if ok else ' - it is the ChannelInfo supplied by the caller: the nodes of the channel being replaced keep listing the SCID (and are never pruned), while the new channel\'s nodes are unlinked from it'), 1, where=F.where(cn, fu.line_of(b))))
+	if n < 3:
+		out.append(Result('17.g', False, 'floor:unlink-sites', 'only %d call sites of remove_channel_in_nodes[_callback] (expected >= 3)' % n, n))
+	return out
+
 RULES = [
+	('17.g', 'a channel leaving the graph is unlinked from the nodes of the stored entry, not of a caller-supplied ChannelInfo', r17g),
 	('17.a', 'channel_update: stored only past chain hash, htlc_max, capacity, strictly-newer timestamp (re-checked under the write lock), signature for the selected direction', r17a),
 	('17.b', 'signed entry points verify: signature passed on, announcements verified (4+1 signatures) before *_intern, pending messages replayed through verifying paths', r17b),
 	('17.c', 'node announcements only strictly newer; duplicate / tombstoned / unsorted / wrong-chain channel announcements refused', r17c),
